@@ -29,12 +29,6 @@ open TfelVerif.LTS
 
 variable (ts : List Task)
 
-theorem reachable_inv (es : List Ev) (s : State) (h : (sys ts).run (sys ts).init es = some s) :
-    LogInv ts s ∧ OrderInv ts s ∧ MainInv ts s :=
-  ⟨(sys ts).invariant (LogInv ts) (logInv_init ts) (logInv_step ts) es s h,
-   (sys ts).invariant (OrderInv ts) (orderInv_init ts) (orderInv_step ts) es s h,
-   (sys ts).invariant (MainInv ts) (mainInv_init ts) (mainInv_step ts) es s h⟩
-
 /-- **The log, after `wait()`.** Whatever the schedule (any accepted history `es`, any number of workers),
 once `pool.wait()` has returned, `tfel-check.log` is the concatenation of the blocks of the tasks listed
 in `s.order`; `s.order` has no repetition and contains exactly the tasks from which no exception escaped.
@@ -131,25 +125,6 @@ theorem exit_status (es : List Ev) (s : State) (b : Bool)
     cases ho' : t.out <;> simp_all
 
 /-! ## Verdict of one check -/
-
-theorem foldl_comparisons (g : Bool) (l : List Bool) :
-    l.foldl (fun g ok => if g == false then false else ok) g = (g && l.all id) := by
-  induction l generalizing g with
-  | nil => simp
-  | cons a l ih =>
-    simp only [List.foldl_cons, List.all_cons, id]
-    rw [ih]
-    cases g <;> simp
-
-theorem foldl_commands (d e : Bool) (g : Bool) (l : List Cmd) :
-    l.foldl (fun g cmd => if cmd.success then g else if !d then false else if e then false else g) g =
-      (g && l.all (fun cmd => cmd.success || (d && !e))) := by
-  induction l generalizing g with
-  | nil => simp
-  | cons a l ih =>
-    simp only [List.foldl_cons, List.all_cons]
-    rw [ih]
-    cases a.success <;> cases d <;> cases e <;> cases g <;> simp
 
 /-- `TestLauncher::execute`: a check succeeds iff its requirements are not met (skipped), or every comparison
 succeeds and every command succeeds or is forgiven (`discard_commands_failure` with at least one comparison).
